@@ -182,6 +182,14 @@ def oracle(chk: C.Check, r, thorough: bool) -> tuple[int, int, list]:
         ("{% macro m %}{% include 'q' %}{% endmacro %}{% call m %}", {"q": "Q"}, ("E", "DisabledTagError")),
         ("{% render 'p', x: 1 %}", {"p": "{% render 'q' %}", "q": "[{{ x }}]"}, ("T", "[]")),
         ("{% assign y = 'L' %}{% for i in (1..1) %}{% render 'q' %}{% endfor %}", {"q": "[{{ y }}{{ i }}{{ forloop.index }}]"}, ("T", "[]")),
+        # include inside a {% block %} of a rendered template (fixed in /repo 65d399b)
+        ("{% render 'child' %}", {"base": "{% block b %}{% endblock %}", "x": "X",
+                                 "child": "{% extends 'base' %}{% block b %}{% include 'x' %}{% endblock %}"},
+         ("E", "DisabledTagError")),
+        # render / call inside a block of the base template do not see the base's locals (fixed in /repo 0967af6)
+        ("{% extends 'b2' %}{% block c %}{% render 'q' %}{% macro f %}<{{ y }}{{ i }}>{% endmacro %}{% call f %}{% endblock %}",
+         {"b2": "{% assign y = 'BASE' %}{% for i in (1..1) %}{% block c %}{% endblock %}{% endfor %}", "q": "[{{ y }}{{ i }}]"},
+         ("T", "[]<>")),
     ]
     for src, ld, want in fixed:
         got = render(src, ld)
